@@ -258,6 +258,34 @@ theorem sepOffsets_centre (sep : Rat) (hs : 0 ≤ sep) : (0, 0) ∈ sepOffsets s
 example : ((0 : Int), (4 : Int)) ∈ sepOffsets (21 / 5) ∧ ((0 : Int), (-4 : Int)) ∈ sepOffsets (21 / 5) ∧
     ((0 : Int), (5 : Int)) ∉ sepOffsets (21 / 5) := by decide +kernel
 
+/-! ### the separation `IRAFStarFinder` works with (option handling around `_find_stars`) -/
+
+/-- a separation the caller gives is the separation in force - zero included (seed C14-r8 tested its truthiness) -/
+theorem irafMinSep_given (s fwhm mf : Rat) (hs : 0 ≤ s) : irafMinSep (some s) fwhm mf = some s := by
+  simp [irafMinSep, not_lt.mpr hs]
+
+theorem irafMinSep_explicit_zero (fwhm mf : Rat) : irafMinSep (some 0) fwhm mf = some 0 :=
+  irafMinSep_given 0 fwhm mf (le_refl 0)
+
+/-- a negative separation is rejected -/
+theorem irafMinSep_negative (s fwhm mf : Rat) (hs : s < 0) : irafMinSep (some s) fwhm mf = none := by
+  simp [irafMinSep, hs]
+
+/-- without one, the default is an integer of at least 2 pixels: the neighbourhood is then always a disk reaching at least two
+    pixels to either side -/
+theorem irafMinSep_default (fwhm mf : Rat) : ∃ n : Int, 2 ≤ n ∧ irafMinSep none fwhm mf = some (n : Rat) :=
+  ⟨max 2 (fwhm * mf + 1 / 2).floor, le_max_left _ _, rfl⟩
+
+/-- only a separation of exactly zero falls back to the kernel footprint; every positive one gives the centred disk -/
+theorem neighbourhood_disk (sep : Rat) (h : 0 < sep) : neighbourhood sep = .disk (sepOffsets sep) := by
+  simp [neighbourhood, ne_of_gt h]
+
+theorem neighbourhood_zero : neighbourhood 0 = .kernelFootprint := by simp [neighbourhood]
+
+-- non-vacuity: fwhm 2, minsep_fwhm 2.5 → 5; explicit 0 → kernel footprint
+example : irafMinSep none 2 (5 / 2) = some 5 ∧ (irafMinSep (some 0) 2 (5 / 2)).map neighbourhood = some .kernelFootprint := by
+  decide +kernel
+
 /-! ### no delegating call in this property's modules drops an argument it holds (table regenerated from the source) -/
 
 /-- TABLE OBLIGATION: see `Gen/ForwardTable.lean` - every delegating call in these modules passes on each value the caller holds
